@@ -273,6 +273,21 @@ instance (L : ListenerParams) : Decidable L.Good := by unfold ListenerParams.Goo
 out this time one whose `Accept()` can block for a stream (`true`), or the earlier one, which returns EOF at once? -/
 def reacceptUsable (L : ListenerParams) (earlierClosed : Bool) : Bool := L.listenerReplaces || !earlierClosed
 
+/-- fact: the main accept loop's hand-off of a knocked stream to its listener also watches the channel that is closed
+when that listener is closed (the `doneCh` it was built with): a listener closed between the acknowledgement of its
+knock and the arrival of the announced stream releases the loop, which closes the stream and goes on accepting -/
+structure HandoffParams where
+  releasedOnClose : Bool
+  deriving DecidableEq, Repr
+
+def HandoffParams.Good (H : HandoffParams) : Prop := H.releasedOnClose = true
+instance (H : HandoffParams) : Decidable H.Good := by unfold HandoffParams.Good; exact inferInstance
+
+/-- the plugin's main accept loop has taken a stream announced for a listener; `taken` = that listener's `Accept()` is
+(or will be) there to take it, `closed` = the listener has been closed.  Does the loop get past the hand-off (and so
+accept the streams that follow: later brokered connections, new transports of the main connection)? -/
+def loopPastHandoff (H : HandoffParams) (taken closed : Bool) : Bool := taken || (closed && H.releasedOnClose)
+
 /-- fact: the knock for a brokered connection is sent by the dial function handed to gRPC — the function gRPC calls for
 EVERY transport it creates for that connection (the first, and each one after a GOAWAY, a keepalive failure or a
 transport error) — in the same critical section that opens the stream; not once by `Dial` itself -/
